@@ -9,6 +9,7 @@
 package eval
 
 import (
+	"go/token"
 	"fmt"
 	"go/types"
 	"sort"
@@ -354,13 +355,27 @@ type Lazy struct {
 	Opts []Value
 }
 
+// Handle is an opaque object (a file, a reader) whose dynamic type is known: type switches and assertions on
+// it are decidable, everything else about it is left to the models.
+type Handle struct {
+	Dyn string // e.g. "*os.File"
+	Tag string
+}
+
 // ChanVal models a channel as a feed of values to yield and a log of values sent.
 type ChanVal struct {
 	Name string
 	Feed []Value
 	pos  int
 	Sent []Value
+	// Queue: a channel made by the interpreted code in pipeline mode: what is sent becomes receivable.
+	Queue  bool
+	Closed bool
+	Pos    token.Pos
 }
+
+// Pending reports how many values can still be received.
+func (c *ChanVal) Pending() int { return len(c.Feed) - c.pos }
 
 func Show(v Value) string {
 	switch v := v.(type) {
@@ -430,6 +445,8 @@ func Show(v Value) string {
 		return "lazy(" + v.Tag + ")"
 	case *FuncVal:
 		return "func"
+	case *Handle:
+		return v.Tag
 	case *ChanVal:
 		return "chan(" + v.Name + ")"
 	}
